@@ -74,11 +74,18 @@ theorem evalLogin_bad (st : St) (rl : Option Limiter) (now addr user : Nat) :
     evalLogin st rl now addr false user =
       (.forbidden, { st with rl := rl.map (fun x => x.inc addr now), evals := st.evals + 1 }) := rfl
 
+theorem handleLogin_eq (st : St) (now : Nat) (r : Req) (good : Bool) (user : Nat) :
+    handleLogin st now r good user = login st now r.peer good user := rfl
+
 theorem sim_login {st : St} {sp : Spec} {now : Nat} (h : Sim st sp now) (hw : noWrap sp now = true)
-    (addr : Nat) (good : Bool) (user : Nat) :
-    (specStep sp now (.login addr good user) (.login (login st now addr good user).1)).1 = true ∧
+    (req : Req) (good : Bool) (user : Nat) :
+    (specStep sp now (.login req good user) (.login (login st now req.peer good user).1)).1 = true ∧
+    Sim (login st now req.peer good user).2
+      (specStep sp now (.login req good user) (.login (login st now req.peer good user).1)).2 now := by
+  obtain ⟨addr, hdr, tr⟩ := req
+  show (specStep sp now (.login ⟨addr, hdr, tr⟩ good user) (.login (login st now addr good user).1)).1 = true ∧
     Sim (login st now addr good user).2
-      (specStep sp now (.login addr good user) (.login (login st now addr good user).1)).2 now := by
+      (specStep sp now (.login ⟨addr, hdr, tr⟩ good user) (.login (login st now addr good user).1)).2 now
   obtain ⟨hthr, hsess⟩ := h
   have newTok : ∀ (r : Option Limiter) (f : FMap (List Nat)),
       SimSess { st with rl := r, mem := st.mem.set st.nextTok ⟨user, (now32 now + st.ttl) % u32⟩,
@@ -96,12 +103,12 @@ theorem sim_login {st : St} {sp : Spec} {now : Nat} (h : Sim st sp now) (hw : no
     cases good with
     | true =>
       rw [evalLogin_good]
-      simp only [specStep, hrej]
+      simp only [specStep, attemptAddr, hrej]
       refine ⟨by simp [hsess.issued], ?_, newTok _ _⟩
       unfold SimThr; simp only [Option.map]; exact hthr
     | false =>
       rw [evalLogin_bad]
-      simp only [specStep, hrej]
+      simp only [specStep, attemptAddr, hrej]
       refine ⟨by simp, ?_, simSess_congr hsess rfl rfl rfl rfl rfl rfl rfl⟩
       unfold SimThr; simp only [Option.map]; exact hthr
   | some l =>
@@ -112,14 +119,14 @@ theorem sim_login {st : St} {sp : Spec} {now : Nat} (h : Sim st sp now) (hw : no
     by_cases hleft : (l.check addr now).1 > 0
     · have hrej : mustReject sp addr now = true := by rw [← c4]; simp [hleft]
       rw [login_blocked hrl hleft]
-      simp only [specStep, hrej]
+      simp only [specStep, attemptAddr, hrej]
       exact ⟨by simp, simThr_of_exact hen c2 c3 c1 _ rfl, simSess_congr hsess rfl rfl rfl rfl rfl rfl rfl⟩
     · have hrej : mustReject sp addr now = false := by rw [← c4]; simp [hleft]
       rw [login_pass hrl hleft]
       cases good with
       | true =>
         rw [evalLogin_good]
-        simp only [specStep, hrej]
+        simp only [specStep, attemptAddr, hrej]
         refine ⟨by simp [hsess.issued], ?_, newTok _ _⟩
         refine simThr_of_exact (l := (l.check addr now).2.remove addr) ?_ ?_ ?_ ?_ _ rfl
         · exact hen
@@ -128,7 +135,7 @@ theorem sim_login {st : St} {sp : Spec} {now : Nat} (h : Sim st sp now) (hw : no
         · exact remove_spec c1 addr _ _
       | false =>
         rw [evalLogin_bad]
-        simp only [specStep, hrej]
+        simp only [specStep, attemptAddr, hrej]
         refine ⟨by simp, ?_, simSess_congr hsess rfl rfl rfl rfl rfl rfl rfl⟩
         refine simThr_of_exact (l := (l.check addr now).2.inc addr now) ?_ ?_ ?_ ?_ _ rfl
         · exact hen
@@ -142,7 +149,7 @@ theorem sim_step {st : St} {sp : Spec} {now : Nat} (h : Sim st sp now) (hw : noW
     (specStep sp now op (step st now op).1).1 = true ∧
     Sim (step st now op).2 (specStep sp now op (step st now op).1).2 now := by
   cases op with
-  | login addr good user => exact sim_login h hw addr good user
+  | login req good user => exact sim_login h hw req good user
   | request tok =>
     obtain ⟨h1, h2⟩ := sess_request h.2 hw tok
     refine ⟨h1, ?_, h2⟩
@@ -302,8 +309,9 @@ theorem loggedOut_runLock (tok : Nat) : ∀ (evs : List Ev) (st : St) (sp : Spec
       · exact hlt
       · rw [this hge] at hi; cases hi
     cases o with
-    | login addr good user =>
-      simp only [step, specStep]
+    | login req good user =>
+      simp only [step, specStep, handleLogin_eq]
+      generalize req.peer = addr
       -- a new token, if any, is `st.nextTok ≠ tok`
       have hres : ∀ t, (login st now addr good user).1 = .ok t → t = st.nextTok := by
         intro t ht
